@@ -16,6 +16,7 @@ import YalafiVerif.Generated.Init
 import YalafiVerif.Properties.PlainMacroArgsStmt
 import YalafiVerif.Properties.PlainDefsStmt
 import YalafiVerif.Properties.PlainOptArgStmt
+import YalafiVerif.Properties.PlainDefTexStmt
 namespace Yalafi
 
 theorem C09_genRepl_nil (arguments : List (List Tok)) (start : Nat) :
